@@ -156,8 +156,10 @@ class SvsInst:
                 self.timer_rst_event.set()
             else:
                 self.aggregate(rsv_dict)
-        else:
+        elif self.next_sync_timing != 0:
             # Reset sync timer
+            # (not when new_data() has just asked for an immediate announcement and the timer task has not run yet:
+            # pushing the timer back would keep the publication unannounced for a whole sync interval)
             self.next_sync_timing = time.time() + self.sample_sync_timer()
             self.timer_rst_event.set()
 
